@@ -14,7 +14,8 @@ TRUSTED = ["pandas dtype inference for the response column"]
 
 RESPONSES = ["y", "yc", "cu", "co", "yc[yes]", "yc['yes']", "yc[\"maybe\"]", "cu[m3]", "co[lo]",
              "co[hi]", "co['mid']", "yc[absent]", "cu[m1]",
-             "p(s, n)", "prop(s, n)", "proportion(s, 9)", "p(s, 12)", "I(y * 2)", "{y + 1}", "`y`",
+             "p(s, n)", "prop(s, n)", "proportion(s, 9)", "p(s, 12)", "p(s8, 300)",
+             "prop(s8, nbig)", "I(y * 2)", "{y + 1}", "`y`",
              "center(y)"]
 BAD_RESPONSES = ["y + z", "y:z", "y*z", "(y | g)", "1", "0", "y / z"]
 RHS = ["x", "f", "x + f", "f:x + g", "0 + f", "x + (1 | g)", "(x | g) + f", "C(k) + z",
@@ -60,6 +61,9 @@ def explore(tier, seed, res=None, replay=None):
     for formula, fi in cases:
         if fi not in frames:
             frames[fi] = designs.gen_frame(rng_for(seed, "c15", "frame", fi))
+            # successes stored with a compact dtype, trials beyond its range
+            frames[fi]["s8"] = frames[fi]["s"].astype("int8")
+            frames[fi]["nbig"] = frames[fi]["n"] + 250
         df = frames[fi]
         res.evaluations += 1
         err, dm = run(formula, df)
